@@ -418,7 +418,11 @@ func (rl *Shell) selfInsert() {
 	// Handle suffix-autoremoval for inserted completions.
 	rl.completer.TrimSuffix()
 
+	// No key to insert (the command has not been run by a key).
 	key := rl.Keys.Caller()
+	if len(key) == 0 {
+		return
+	}
 
 	// Handle autopair insertion (for the closer only)
 	searching, _, _ := rl.completer.NonIncrementallySearching()
